@@ -7,7 +7,7 @@ use swc::atoms::JsWord;
 use swc_common::{Span, SyntaxContext, DUMMY_SP};
 use swc_ecma_ast::{
     ArrayLit, AssignExpr, AssignOp, AssignTarget, BindingIdent, Expr, ExprOrSpread, Ident,
-    SimpleAssignTarget,
+    ParenExpr, SimpleAssignTarget,
 };
 
 use super::visitor_util::get_dd_local_variable_name;
@@ -107,6 +107,13 @@ pub trait IdentProvider {
                     spread: Some(DUMMY_SP),
                     expr: Box::new(expr.clone()),
                 })],
+            })
+        } else if expr.is_seq() {
+            // `${a, b}`: the code generator prints the right operand of an assignment without parentheses,
+            // `__datadog_test_0 = a, b` would hold `a` instead of `b`
+            Expr::Paren(ParenExpr {
+                span: DUMMY_SP,
+                expr: Box::new(expr.clone()),
             })
         } else {
             expr.clone()
